@@ -4,29 +4,21 @@
 use crate::gen::{Entry, Pool};
 use crate::proc::{self, Exit, SharedFlag};
 use crate::types::*;
-use std::cell::Cell;
 use std::collections::BTreeMap;
 use std::time::Duration;
-use string_calculator::verif_hooks::{set_thread_hook, Site};
+use crate::tick::{self, T};
+use string_calculator::verif_hooks::set_thread_hook;
 
 pub const STACK_BYTES: usize = 64 << 20;
 pub const ISOLATED_TICK_CAP: u64 = 50_000;
 
-thread_local! {
-    static ISO: Cell<(u64, u64, u64)> = const { Cell::new((0, 0, 0)) }; // ticks, trace hash, cap
-}
-
-fn iso_hook(site: Site) {
-    ISO.with(|c| {
-        let (t, h, cap) = c.get();
-        let t = t + 1;
-        let mut hh = Hasher64(h);
-        hh.u64(site as u64 + 1);
-        c.set((t, hh.0, cap));
-        if t > cap {
-            proc::item_finish(b"cap");
-        }
-    });
+/// per-call tick cap of an isolated evaluation: a call that needs more never "returns" in the property's sense
+pub fn isolated_tick_cap() -> u64 {
+    if crate::tick::bb_guards() > 0 {
+        ISOLATED_TICK_CAP * 64
+    } else {
+        ISOLATED_TICK_CAP
+    }
 }
 
 pub fn silence_stderr() {
@@ -46,12 +38,20 @@ pub fn isolated_child(call: &Call, cap: u64) -> Vec<u8> {
     let h = std::thread::Builder::new()
         .stack_size(STACK_BYTES)
         .spawn(move || {
-            ISO.with(|c| c.set((0, Hasher64::new().0, cap)));
-            set_thread_hook(Some(iso_hook));
-            let o = exec_call(&call);
-            set_thread_hook(None);
-            let (t, h, _) = ISO.with(|c| c.get());
-            format!("o\t{}\t{}\t{}", t, h, o.encode()).into_bytes()
+            T.with(|c| {
+                c.mode.set(tick::MODE_ISO);
+                c.cap.set(cap);
+                c.wake.set(u64::MAX);
+                c.track_mem.set(false);
+                tick::begin_call(c, 0);
+                set_thread_hook(Some(tick::source_hook));
+                c.in_call.set(true);
+                let o = exec_call(&call);
+                c.in_call.set(false);
+                set_thread_hook(None);
+                c.mode.set(tick::MODE_OFF);
+                format!("o\t{}\t{}\t{}", c.ticks.get(), c.trace.get(), o.encode()).into_bytes()
+            })
         })
         .unwrap_or_else(|_| proc::harness_die("cannot spawn oracle thread"));
     match h.join() {
@@ -106,7 +106,7 @@ pub fn isolated_many(calls: &[Call], workers: usize, timeout: Duration) -> Vec<I
         timeout,
         None,
         &stop,
-        |i| isolated_child(&calls[i], ISOLATED_TICK_CAP),
+        |i| isolated_child(&calls[i], isolated_tick_cap()),
         |i, bytes, exit| {
             res[i] = Some(parse_iso(&bytes, exit));
         },
